@@ -129,6 +129,7 @@ static scpi_result_t generic(scpi_t *c) {
                 if (r == SCPI_EXPR_OK) { int m = cap < (int) dims ? cap : (int) dims; oprintf(",%d,%zu", ir ? 1 : 0, dims); for (int i = 0; i < m; i++) oprintf(",%d", f[i]); if (ir) for (int i = 0; i < m; i++) oprintf(",%d", t[i]); }
                 zfree(f); zfree(t); } }
         else if (!strcmp(name, "RI32")) SCPI_ResultInt32(c, (int32_t) strtoll(a1, 0, 10));
+        else if (!strcmp(name, "RREP")) { long n = strtol(a1, 0, 10); int32_t v = (int32_t) strtoll(a2, 0, 10); for (long i = 0; i < n; i++) SCPI_ResultInt32(c, v); }   /* RREP:n:v  n result items in one unit */
         else if (!strcmp(name, "RU32")) SCPI_ResultUInt32Base(c, (uint32_t) strtoull(a1, 0, 10), atoi(a2));
         else if (!strcmp(name, "RI64")) SCPI_ResultInt64(c, (int64_t) strtoll(a1, 0, 10));
         else if (!strcmp(name, "RU64")) SCPI_ResultUInt64Base(c, strtoull(a1, 0, 10), atoi(a2));
